@@ -2,6 +2,13 @@
 # regenerate coq/_CoqProject from the files on disk and (re)build everything (.vo, never -vos)
 set -e
 cd "$(dirname "$0")/coq"
-{ echo "-Q . PS"; echo "-arg -w -arg -notation-overridden,-deprecated-hint-without-locality,-deprecated-instance-without-locality"; find Base Model Spec Proofs Run Props -name '*.v' | sort; } > _CoqProject
-coq_makefile -f _CoqProject -o Makefile >/dev/null
+exec 9>../.build.lock
+flock 9
+{ echo "-Q . PS"; echo "-arg -w -arg -notation-overridden,-deprecated-hint-without-locality,-deprecated-instance-without-locality"; find Base Model Spec Proofs Run Props -name '*.v' | sort; } > _CoqProject.new
+if ! cmp -s _CoqProject.new _CoqProject 2>/dev/null || [ ! -f Makefile ]; then
+  mv _CoqProject.new _CoqProject
+  coq_makefile -f _CoqProject -o Makefile >/dev/null
+else
+  rm -f _CoqProject.new
+fi
 timeout 3000 make -j16 "$@"
